@@ -38,6 +38,8 @@ CHECKS = {
          "every attributable swap request (all three message types, 1- and 2-hop, foreign recipients, batches with opposite directions and limits) must show either the executed pattern (exact debit / debit <= max, credit >= min / output, no unstated debit) or no movement at all; nothing moves at acceptance time; the transient queue is empty after the batch; idle blocks move nothing", "6/C04", TB),
  "C10": ("exploration", "boundary-diff monitor + entry-by-entry replay of close-positions lists and of the leveragelp sweep on a discarded branch",
          "every change of a position by a non-owner (bot message or chain sweep) must be justified by health <= safety factor or a reached stop-loss / take-profit measured immediately before that entry's turn; un-named and unjustified positions and their owners' balances stay as they were; every successful open (also via order execution) leaves stored and recomputed health above the safety factor", "6/C10", TB),
+ "C20": ("exploration", "escrow-ledger monitor over pre-message / post-tx snapshots of every order, escrow and owner wallet",
+         "around every tradeshield transaction of anyone: wallet+escrow per owner and denom conserved (a position opened by an executed order accounts for its collateral), un-named and un-triggered orders byte-identical (trigger evaluated by the monitor per order type), only owners update / cancel, failed executions leave no position behind, new escrows hold exactly the order amount", "6/C20", TB),
 }
 
 m = {"version": 1, "setup_cmd": "./setup.sh",
